@@ -139,7 +139,8 @@ def c01(tier):
     ]
 
     def relevant(mm, sess, runs):
-        return mm['kind'] in ('conformance', 'corpus') and any(r in ('plain', 'prefix', 'spec') for r in runs)
+        # an abort of the host process or a generated text the reader does not read is no evaluation result at all
+        return mm['kind'] == 'abort' or (mm['kind'] in ('conformance', 'corpus') and any(r in ('plain', 'prefix', 'spec') for r in runs))
 
     import mach
     mcov = {}
